@@ -22,10 +22,12 @@ struct Args {
     obs: Option<String>,
     bases: usize,
     variants: String,
+    cli: Option<String>,
+    cli_every: usize,
 }
 
 fn parse_args() -> Args {
-    let mut a = Args { input: String::new(), out: String::new(), obs: None, bases: 2, variants: "none".into() };
+    let mut a = Args { input: String::new(), out: String::new(), obs: None, bases: 2, variants: "none".into(), cli: None, cli_every: 50 };
     let v: Vec<String> = std::env::args().collect();
     let mut i = 1;
     while i < v.len() {
@@ -35,6 +37,8 @@ fn parse_args() -> Args {
             "--obs" => { a.obs = Some(v[i + 1].clone()); i += 1; }
             "--bases" => { a.bases = v[i + 1].parse().unwrap_or(2); i += 1; }
             "--variants" => { a.variants = v[i + 1].clone(); i += 1; }
+            "--cli" => { a.cli = Some(v[i + 1].clone()); i += 1; }
+            "--cli-every" => { a.cli_every = v[i + 1].parse().unwrap_or(50).max(1); i += 1; }
             _ => {}
         }
         i += 1;
@@ -530,6 +534,40 @@ fn main() {
                 }
             }
             let plain = r.order == Order::Canonical && r.fills == Fills::One && !r.dividends;
+            // the same ledger as DSL text through the cgt-tool binary: `report --format json` must be the library's report
+            // (the observation point named by C01/C04/C05: exit status, standard output, the JSON figures)
+            if plain && r.base == bases[0] && case_no % args.cli_every == 0 {
+                if let Some(cli) = &args.cli {
+                    let dir = std::env::temp_dir().join(format!("cgtv_cli_{}_{}", std::process::id(), case_no));
+                    let _ = std::fs::create_dir_all(&dir);
+                    let _ = std::fs::write(dir.join("l.cgt"), to_dsl(&txs));
+                    let o = std::process::Command::new(cli).args(["report", "--format", "json", "l.cgt"]).current_dir(&dir).env("HOME", &dir).output();
+                    let _ = std::fs::remove_dir_all(&dir);
+                    cnt.inc("cli_runs");
+                    match (o, &res) {
+                        (Err(e), _) => { eprintln!("cannot run {cli}: {e}"); std::process::exit(2); }
+                        (Ok(o), Ok(Ok(rep))) => {
+                            let strip = |mut v: serde_json::Value| { if let Some(ys) = v["tax_years"].as_array_mut() { for y in ys { if let Some(m) = y.as_object_mut() { m.remove("exempt_amount"); } } } v };
+                            let want = strip(cgtv::canon_numbers(&serde_json::to_value(rep).unwrap_or(json!(null))));
+                            let got = serde_json::from_slice::<serde_json::Value>(&o.stdout).map(|v| strip(cgtv::canon_numbers(&v))).unwrap_or(json!("<not json>"));
+                            if !o.status.success() || got != want {
+                                f.push(Finding { prop: "C01".into(), kind: "cli_report_differs".into(), case: case_no,
+                                    detail: format!("cgt-tool report --format json (exit {:?}) does not print the library's report for the same ledger: {} vs {}", o.status.code(),
+                                        got.to_string().chars().take(300).collect::<String>(), want.to_string().chars().take(300).collect::<String>()),
+                                    input: to_dsl(&txs), data: json!({}) });
+                            }
+                        }
+                        (Ok(o), Ok(Err(_))) => {
+                            if o.status.success() || !o.stdout.iter().all(|b| b.is_ascii_whitespace()) {
+                                f.push(Finding { prop: "C05".into(), kind: "cli_report_on_refused_ledger".into(), case: case_no,
+                                    detail: format!("the library refuses the ledger, yet cgt-tool exits {:?} with {} bytes on standard output", o.status.code(), o.stdout.len()),
+                                    input: to_dsl(&txs), data: json!({}) });
+                            }
+                        }
+                        _ => {}
+                    }
+                }
+            }
             // C11 "spread only over shares already held": a disposal made, and matched to acquisitions made, before the
             // security's first cost event is the same with the events deleted (implementation vs implementation)
             if plain && r.base == bases[0] && rec0.has_events() {
